@@ -190,7 +190,14 @@ class C19(core.Check):
         src, exp = build(random.Random(case['s']), case['pack'], case['dcls'])
         cnt = {'via_' + case['via']: 1}
         if case['via'] == 'api':
-            (t, p), err = tex.run(src, unkn=True, pack=case['pack'], dcls=case['dcls'], lang=case['lang'])
+            extra = {}
+            if case['s'] % 5 == 0:
+                # a phrase-replacement list must not rewrite the list of names
+                extra['repl'] = ['%s & replaced name\n' % n.lstrip('\\') for n in exp[:3]] + ['w & W\n']
+                cnt['with_repl_option'] = 1
+            if case['s'] % 7 == 0:
+                extra['seqs'] = True
+            (t, p), err = tex.run(src, unkn=True, pack=case['pack'], dcls=case['dcls'], lang=case['lang'], **extra)
             if len(t) != len(p):
                 return dict(ok=False, nt=True, key='length', cnt=cnt, obs=None, detail=dict(src=src, out=t))
         elif case['via'] == 'cli':
@@ -237,7 +244,7 @@ class C19(core.Check):
                     obs=dict(src=tex.short(src, 250), listed=exp))
 
     def quotas(self, tier):
-        return {'via_api': 3000, 'via_cli': 10, 'via_shell': 10, 'names_listed': 5000,
+        return {'with_repl_option': 300, 'via_api': 3000, 'via_cli': 10, 'via_shell': 10, 'names_listed': 5000,
                 'docs_with_names_in_maths_or_hidden': 2000}
 
 
